@@ -30,6 +30,13 @@ CONSTANTS
   TenZero <- BothTz
   SpPairs <- D_Sp
   SpArms <- D_SpArm
+  StiffPolys <- P00
+  DampPolys <- P00
+  TenKPolys <- P00
+  TenDPolys <- P00
+  SpStiffs <- T000
+  SpRanges <- Rng0
+  SpDamps <- T000
   Level = 2
   Tie = FALSE
   Rand = TRUE
